@@ -98,6 +98,23 @@ pub fn gen_rand(a: &Args, out: &mut Out, run0: u64, nruns: u64, strict_pct: u32)
     for k in 0..nruns {
         let flags = rand_flags(&mut rng, strict_pct);
         let mut m = M::new(run0 + k, flags, out);
+        // a loaded object file: its blocks are what strict mode exempts (in_alloca); none, one or several
+        // blocks, the lowest well above x0000, reserved words inside, also an empty file
+        if chance(&mut rng, 40) {
+            let mut bases = vec![0x2F00u16, 0x3000, 0x3100, 0x4000, 0x7FFE, 0xC000, 0xFD00];
+            let nb = rng.random_range(0..4usize);
+            let mut src = String::new();
+            for _ in 0..nb {
+                let b = bases.remove(rng.random_range(0..bases.len())) + rng.random_range(0..3u16);
+                src.push_str(&format!(".orig x{b:04X}\n"));
+                for _ in 0..rng.random_range(1..4) {
+                    if chance(&mut rng, 50) { src.push_str(&format!(".blkw {}\n", rng.random_range(1..4))); } else { src.push_str(&format!(".fill x{:04X}\n", rng.random::<u16>())); }
+                }
+                src.push_str(".end\n");
+            }
+            let obj = assemble_src(&src);
+            m.load(out, &obj);
+        }
         // privilege / priority / condition codes
         let psr = (if chance(&mut rng, 55) { 0x8000 } else { 0 }) | (rng.random_range(0..8u16) << 8)
             | pick(&mut rng, &[1u16, 2, 4, 2, 0, 7]);
